@@ -663,14 +663,150 @@ func addrKey(p *PState, a ssa.Value) string {
 	for i, j := 0, len(chain)-1; i < j; i, j = i+1, j-1 {
 		chain[i], chain[j] = chain[j], chain[i]
 	}
-	return fmt.Sprintf("%p|%s", root, strings.Join(chain, "."))
+	rk := fmt.Sprintf("%p", root)
+	if al, isAl := root.(*ssa.Alloc); isAl && theCtx != nil {
+		if theCtx.privRoots == nil {
+			theCtx.privRoots = map[string]bool{}
+		}
+		if _, seen := theCtx.privRoots[rk]; !seen {
+			theCtx.privRoots[rk] = privateAlloc(theCtx, al, 0)
+		}
+	}
+	return rk + "|" + strings.Join(chain, ".")
 }
+
 
 func fieldID(f *types.Var) string {
 	return fmt.Sprintf("%s@%d", f.Name(), f.Pos())
 }
 
+// frozenLoad: the value loaded from addr when addr is an element/field (constant indices on this
+// path) of a package-level table that is never written after initialisation.
+func frozenLoad(c *Ctx, p *PState, addr ssa.Value, idxEval func(ssa.Value) (int64, bool)) (aval, bool) {
+	type step struct {
+		field int
+		idx   int64
+		isIdx bool
+	}
+	var steps []step
+	v := addr
+	for i := 0; i < 16; i++ {
+		if p != nil {
+			v = p.Resolve(v)
+		}
+		switch x := v.(type) {
+		case *ssa.FieldAddr:
+			steps = append(steps, step{field: x.Field})
+			v = x.X
+			continue
+		case *ssa.IndexAddr:
+			var k int64
+			iv := x.Index
+			if p != nil {
+				iv = p.Resolve(iv)
+			}
+			if kk, ok := foldInt(p, iv, 0); ok {
+				k = kk
+			} else if idxEval != nil {
+				kk, ok := idxEval(x.Index)
+				if !ok {
+					return aval{}, false
+				}
+				k = kk
+			} else {
+				return aval{}, false
+			}
+			steps = append(steps, step{idx: k, isIdx: true})
+			v = x.X
+			continue
+		case *ssa.Global:
+			cell := c.initialCell(x)
+			if cell == nil {
+				return aval{}, false
+			}
+			for j := len(steps) - 1; j >= 0; j-- {
+				st := steps[j]
+				if st.isIdx {
+					if cell.elems == nil || st.idx < 0 || int(st.idx) >= len(cell.elems) {
+						return aval{}, false
+					}
+					cell = cell.elems[st.idx]
+				} else {
+					if cell.fields == nil || cell.fields[st.field] == nil {
+						return aval{}, false
+					}
+					cell = cell.fields[st.field]
+				}
+			}
+			if cell.v.k == kConst && cell.v.c != nil {
+				return cell.v, true
+			}
+			return aval{}, false
+		}
+		return aval{}, false
+	}
+	return aval{}, false
+}
+
+// foldInt: the integer v denotes on this path (constants, exact facts, + and - of such).
+func foldInt(p *PState, v ssa.Value, depth int) (int64, bool) {
+	if p != nil {
+		v = p.Resolve(v)
+	}
+	if k, ok := constInt(v); ok {
+		return k, true
+	}
+	if f, ok := factOf(p, v); ok && f.hasLo && f.hasHi && f.lo == f.hi {
+		return f.lo, true
+	}
+	if depth > 6 {
+		return 0, false
+	}
+	switch x := v.(type) {
+	case *ssa.Convert:
+		if isIntegerType(x.Type()) && isIntegerType(x.X.Type()) {
+			if k, ok := foldInt(p, x.X, depth+1); ok && k >= 0 && k < 1<<31 {
+				return k, true
+			}
+		}
+	case *ssa.BinOp:
+		if x.Op == token.ADD || x.Op == token.SUB {
+			a, ok1 := foldInt(p, x.X, depth+1)
+			b, ok2 := foldInt(p, x.Y, depth+1)
+			if ok1 && ok2 {
+				if x.Op == token.ADD {
+					return a + b, true
+				}
+				return a - b, true
+			}
+		}
+	}
+	return 0, false
+}
+
+func factOf(p *PState, v ssa.Value) (Fact, bool) {
+	if p == nil {
+		return Fact{}, false
+	}
+	f, ok := p.facts[v]
+	return f, ok
+}
+
 func (w *Walker) doLoad(p *PState, x *ssa.UnOp) {
+	if av, ok := frozenLoad(w.C, p, x.X, nil); ok {
+		if k, isInt := av.Int(); isInt && isIntegerType(x.Type()) {
+			f := p.facts[x]
+			f.hasLo, f.hasHi, f.lo, f.hi = true, true, k, k
+			p.facts[x] = f
+		} else if b, isB := av.Bool(); isB {
+			f := p.facts[x]
+			f.boolK = 2
+			if b {
+				f.boolK = 1
+			}
+			p.facts[x] = f
+		}
+	}
 	k := addrKey(p, x.X)
 	if k == "" {
 		return
@@ -749,12 +885,18 @@ func (w *Walker) invalidateForCall(p *PState, call *ssa.Call) {
 	}
 	if mod.all {
 		for k := range p.fields {
+			if i := strings.Index(k, "|"); i > 0 && w.C.privRoots[k[:i]] {
+				continue
+			}
 			delete(p.fields, k)
 		}
 		return
 	}
 	for k := range p.fields {
 		i := strings.Index(k, "|")
+		if i > 0 && w.C.privRoots[k[:i]] {
+			continue
+		}
 		for _, part := range strings.Split(k[i+1:], ".") {
 			if mod.ids[part] {
 				delete(p.fields, k)
